@@ -99,7 +99,11 @@ int main(int argc, char** argv) {
           try { Domain e = f.eval_domain(bad); (void)e; } catch (...) {} }
         Domain res = f.eval_domain(box);
         check_round_up("eval");
-        EMIT("evalcert %s %s => %s\n", b.dag.c_str(), tok(box).c_str(), res.is_empty() ? "EMPTY" : domains_token(f, f.expr(), f.args()).c_str());
+        { // a node domain with an empty entry (e.g. 0^-1: no exception is raised) means the function is undefined on the whole box:
+          // nothing to certify (the point checks below still reject a defined value against an empty entry)
+          string dt = res.is_empty() ? string("EMPTY") : domains_token(f, f.expr(), f.args());
+          if (dt.find(".E") != string::npos || dt.find("/E") != string::npos) dt = "EMPTY";
+          EMIT("evalcert %s %s => %s\n", b.dag.c_str(), tok(box).c_str(), dt.c_str()); }
         string rt = res.is_empty() ? string("E") : mtok(res);
         for (int j = 0; j < 4; j++) { Vector p = pick_point(r, box); EMIT("evalpt %s %s => %s\n", b.dag.c_str(), ptok(p).c_str(), rt.c_str()); }
         // the typed entry points must agree with eval_domain
